@@ -257,6 +257,18 @@ class Prop(common.PropertyCheck):
                 out['problems'].append('to_mef(channels=%s) changed the RFI sample it was given (events or range limits): gating that sample afterwards is no longer gating before the conversion' % (ch2,))
             gated_first = FlowCal.transform.to_mef(FlowCal.gate.high_low(rfi), ch2, scs, sc_ch)
             limits_check(rfi_keep, mef, ccols, 'to_mef')
+            # the converted samples sent through pickle (as multiprocessing does) and copied: limits and gate are those of the sample that was sent
+            import pickle, copy as _copy
+            for nm, obj in (('RFI', rfi_keep), ('MEF', mef)):
+                for how, dup in (('pickle', lambda o: pickle.loads(pickle.dumps(o, protocol=2 + (case['seed'] % 4)))), ('deepcopy', _copy.deepcopy), ('copy', lambda o: o.copy())):
+                    try:
+                        o2 = dup(obj)
+                        if [tuple(v) if v is not None else None for v in o2.range()] != [tuple(v) if v is not None else None for v in obj.range()]:
+                            out['problems'].append('the %s sample after %s has the range limits %s instead of %s' % (nm, how, [tuple(v) for v in o2.range()][:3], [tuple(v) for v in obj.range()][:3]))
+                        elif not np.array_equal(FlowCal.gate.high_low(o2, full_output=True).mask, FlowCal.gate.high_low(obj, full_output=True).mask):
+                            out['problems'].append('the saturation gate keeps other events of the %s sample after %s' % (nm, how))
+                    except Exception as e:
+                        out['problems'].append('%s of the %s sample raised %s' % (how, nm, type(e).__name__))
             # histogram bins asked of the converted samples on every scale (as the plotting functions do) before they are gated: the limits stay what they are
             for nm, obj in (('RFI', rfi_keep), ('MEF', mef)):
                 lim0 = [tuple(v) if v is not None else None for v in obj.range()]
